@@ -87,10 +87,10 @@ class Ctx:
         return vals
 
     # ------------------------------------------------------------------ P2
-    def pmap_fresh(self, fn, items, procs=NCPU):
+    def pmap_fresh(self, fn, items, procs=NCPU, batch=8):
         """like pmap, but every item runs in its own process forked from this (pristine) one; results are returned, not recorded"""
         items = list(items)
-        batch = 8                              # items per pristine grandchild
+        # batch: items per pristine grandchild
         groups = [items[i:i + batch] for i in range(0, len(items), batch)]
         ctx = multiprocessing.get_context("fork")
         with ctx.Pool(procs) as pool:          # the pool workers never call the library themselves: each batch runs in a grandchild
